@@ -469,6 +469,8 @@ __ywd_fixup(dt_ywd_t d)
 
 #if defined ASPECT_GETTERS && !defined YWD_ASPECT_GETTERS_
 #define YWD_ASPECT_GETTERS_
+static dt_ywd_t __make_ywd_yd_dow(unsigned int y, int yd, dt_dow_t dow);
+
 static dt_ywd_t
 __make_ywd_c(unsigned int y, unsigned int c, dt_dow_t w, unsigned int cc)
 {
@@ -511,14 +513,29 @@ __make_ywd_c(unsigned int y, unsigned int c, dt_dow_t w, unsigned int cc)
 		canon_yc(y, c, hang);
 		break;
 	case YWD_SUNWK_CNT:
-		if (j01 == DT_SUNDAY) {
+		if (w != DT_MIRACLEDAY) {
+			/* week 1 starts with the first sunday of the year,
+			 * go through the day of the year of W in week C */
+			const int fst = j01 == DT_SUNDAY ? 1 : 8 - (int)j01;
+			const int off = w == DT_SUNDAY ? 0 : (int)w;
+
+			return __make_ywd_yd_dow(
+				y, fst + 7 * ((int)c - 1) + off, w);
+		} else if (j01 == DT_SUNDAY) {
 			;
 		} else {
 			c++;
 		}
 		break;
 	case YWD_MONWK_CNT:
-		if (j01 <= DT_MONDAY) {
+		if (w != DT_MIRACLEDAY) {
+			/* same with the first monday */
+			const int fst = j01 == DT_MONDAY ? 1 : 9 - (int)j01;
+			const int off = (int)w - 1;
+
+			return __make_ywd_yd_dow(
+				y, fst + 7 * ((int)c - 1) + off, w);
+		} else if (j01 <= DT_MONDAY) {
 			;
 		} else {
 			c++;
